@@ -173,6 +173,66 @@ def shard_fresh(cfgname, seed, count):
     return acc
 
 
+# ---------------------------------------------------------------------------------------------- (e) memory hub history
+def hub_history_case(lay, ops_a, ops_b, probe):
+    """two hubs with the same devices, different access histories, then the same memory contents and the same probe accesses: same answers, same memory.
+    Anything the hub remembers about earlier accesses (a last-hit shortcut, a cached device) is not part of the state and must not matter."""
+    from vf.props import c16
+    def run(ops):
+        hub = c16.build_hub(c16.Model(lay))
+        for kind, a, size, value in ops:
+            if kind == 'w':
+                hub[c16.desc(a), size] = value
+            else:
+                hub[c16.desc(a), size]
+        return hub
+    ha, hb = run(ops_a), run(ops_b)
+    for ma, mb in zip(ha.memories, hb.memories):
+        mb.mem.memory_array[:] = ma.mem.memory_array
+    out = []
+    for hub in (ha, hb):
+        res = []
+        for kind, a, size, value in probe:
+            if kind == 'w':
+                hub[c16.desc(a), size] = value
+                res.append(None)
+            else:
+                res.append(hub[c16.desc(a), size])
+        out.append((res, [bytes(m.mem.memory_array) for m in hub.memories]))
+    return out[0] == out[1], out
+
+
+def shard_hub_history(seed, count):
+    from vf.props import c16
+    acc = Acc()
+    rng = random.Random(seed)
+    for _ in range(count):
+        anchor = rng.choice(c16.ANCHORS)
+        lay, off = [], 0
+        for _d in range(rng.randrange(2, 5)):
+            size = rng.randrange(1, 40)
+            lay.append([anchor, off, size])
+            off += size if rng.random() < 0.7 else rng.choice((size - 1, size + 1, size + 8))       # abutting (mostly), overlapping by one, gapped
+            off = max(off, 0)
+        model = c16.Model(lay)
+        pts = sorted({(b + d) & c16.PA_MASK for b, e, _ in model.devs for d in range(-3, 3)} | {(e + d) & c16.PA_MASK for b, e, _ in model.devs for d in range(-9, 3)})
+        def ops(n):
+            return [[rng.choice('rw'), rng.choice(pts), rng.choice(c16.SIZES), rng.getrandbits(64)] for _ in range(n)]
+        def fix(o):
+            return [[k, a, sz, v & ((1 << (8 * sz)) - 1)] for k, a, sz, v in o]
+        oa, ob, pr = fix(ops(rng.randrange(1, 6))), fix(ops(rng.randrange(0, 6))), fix(ops(rng.randrange(1, 5)))
+        try:
+            same, out = hub_history_case(lay, oa, ob, pr)
+        except Exception as e:
+            acc.violation('C20:hub-history:host-error', {'kind': 'hub', 'layout': lay, 'ops_a': oa, 'ops_b': ob, 'probe': pr}, {'exc': repr(e)})
+            continue
+        acc.case(True, ('hub', repr(lay), repr(oa), repr(ob), repr(pr)), cls='hub-history', sample={'layout': lay, 'history_a': oa[:3], 'history_b': ob[:3], 'probe': pr[:3]})
+        if not same:
+            acc.violation('C20:hub-history', {'kind': 'hub', 'layout': lay, 'ops_a': oa, 'ops_b': ob, 'probe': pr},
+                          {'answers_a': [x for x in out[0][0]], 'answers_b': [x for x in out[1][0]]})
+    return acc
+
+
 # ---------------------------------------------------------------------------------------------- (c) isolation
 class Diverged(Exception):
     pass
@@ -297,12 +357,13 @@ def run(ctx):
                 'and step them in a generated interleaving; after every step the instance must equal its solo twin stepped under its own configuration. '
                 'Same-configuration groups must be perfectly isolated; mixed-configuration groups (PMSA/VMSA, arch 5/6/7, security on/off, 7-R) are '
                 'attributed to the known finding config-singleton only when the observed state equals the prediction "the module-level configuration is '
-                'the one of the most recently constructed instance". (d) process history: an instance created from configuration file X after instances of other configurations were created and stepped in the same process must produce the trace a fresh interpreter that only ever loaded X produces (both sides run in fresh subprocesses, so a divergence is a pure function of the recorded script). Non-trivial: a store or exception before the split / >=2 switches in the interleaving.')
+                'the one of the most recently constructed instance". (d) process history: an instance created from configuration file X after instances of other configurations were created and stepped in the same process must produce the trace a fresh interpreter that only ever loaded X produces (both sides run in fresh subprocesses, so a divergence is a pure function of the recorded script). (e) memory hub: two hubs with the same devices (abutting / overlapping / gapped, up to 40-bit addresses) and different access histories, then identical contents: the same probe accesses give the same answers and memory. Non-trivial: a store or exception before the split / >=2 switches in the interleaving.')
     ctx.technique = 'stateful property testing of instance interleavings (Hypothesis rule-based machine) + snapshot/replay trace equality'
     ctx.assumptions = ['schedules are interleavings of whole emulate_cycle() calls chosen by the harness (no threads)']
     tasks = [(shard_snapshot, (ctx.shard_seed(i), ctx.n(500, 5000))) for i in range(8)]
     tasks += [(shard_iso, (ctx.shard_seed(100 + i), ctx.n(120, 1500), ctx.n(25, 40), True)) for i in range(4)]
     tasks += [(shard_iso, (ctx.shard_seed(200 + i), ctx.n(120, 1500), ctx.n(25, 40), False)) for i in range(4)]
+    tasks += [(shard_hub_history, (ctx.shard_seed(400 + i), ctx.n(1500, 30000))) for i in range(4)]
     tasks += [(shard_fresh, (c, ctx.shard_seed(300 + i), ctx.n(60, 1200))) for i, c in enumerate(CFGS)]
     ctx.pmap(_dispatch, tasks)
 
@@ -315,6 +376,9 @@ def replay(case, bucket=None):
     if 'history' in case:
         msg = replay_history([tuple(h) for h in case['history']], case.get('same_config', False))
         return [msg] if msg else []
+    if case.get('kind') == 'hub':
+        same, _ = hub_history_case(case['layout'], case['ops_a'], case['ops_b'], case['probe'])
+        return [] if same else ['hub answers depend on the access history']
     if case.get('kind') == 'fresh':
         want = run_script(case['cfgname'], case['script'], case['j'], False)
         got = run_script(case['cfgname'], case['script'], case['j'], True)
